@@ -125,7 +125,8 @@ def corpus(tier, seed):
                     seen_t.add(t); pick.append(c); n += 1
         # sizes with hand-written intrinsic kernels of their own are always in (norm / inner of 4 and 9 elements, 2x2 / 3x3 / 4x4
         # determinant, inverse, solve): they are where the ISA- and macro-specific code (e.g. the FASTOR_USE_HADD variants) lives
-        must = ["c_redf<%s,%d>(%du);" % (t, n, seed * 3 + n) for t in FTYPES for n in (4, 9, 16)] + \
+        must = ["c_mm<%s,%d,%d,%d>(%du);" % (t, m, k, n, seed * 11 + n) for t in FTYPES for (m, k, n) in ((12, 2, 82), (24, 3, 43), (16, 2, 41))] + \
+               ["c_redf<%s,%d>(%du);" % (t, n, seed * 3 + n) for t in FTYPES for n in (4, 9, 16)] + \
                ["c_linalg<%s,%d>(%du);" % (t, n, seed * 5 + n) for t in FTYPES for n in (2, 3, 4)] + \
                ["c_red<%s,%d>(%du);" % (t, n, seed * 7 + n) for t in ("int32_t", "int64_t") for n in (4, 8, 9)]
         have = set(c.split("(")[0] for c in pick)
@@ -293,6 +294,24 @@ def cross_stage(v, wd, tier, seed):
                 home_ok.add((r["group"]["key"][:-7], r["calls"][0]))
         del symrun.REJECTED[nrej1:]
     del symrun.REJECTED[nrej0:]
+    # failures that occur at home too: wrong everywhere (the owning property's business) or only under this ISA flag set?
+    ref_groups = []
+    for key, items in recheck.items():
+        g = bykey[key]
+        calls = sorted(set(c for _, c in items if (key, c) not in home_ok))
+        if calls and g["isa"] != REF[0]:
+            rg = dict(g); rg.update({"key": key + " [ref]", "calls": calls, "isa": REF[0], "std": g["home"]["std"], "opt": g["home"]["opt"], "defs": g["home"]["defs"]})
+            ref_groups.append(rg)
+    ref_ok = set()
+    if ref_groups:
+        nrej2 = len(symrun.REJECTED)
+        for r in symrun.run_groups(ref_groups, wd, per_tu=1):
+            rr = r["res"]
+            if rr.get("rejected") or rr["rc_compile"] != 0 or rr["rc_run"] != 0: continue
+            lines = [l for l in rr["out"].split("\n") if "|" in l]
+            if lines and all(l.split("|", 1)[1].strip().startswith("ok") for l in lines):
+                ref_ok.add((r["group"]["key"][:-6], r["calls"][0]))
+        del symrun.REJECTED[nrej2:]
     nv = 0
     def rep(kind, g, call, detail):
         v.violation("cross %s %s %s" % (kind, g["key"], call),
@@ -302,6 +321,16 @@ def cross_stage(v, wd, tier, seed):
     for g, line, call in fails:
         if call and (g["key"], call) in home_ok:
             rep("wrong-value", g, call, line); nv += 1
+        elif call and (g["key"], call) in ref_ok:
+            rep("wrong-value-under-this-isa (ok under %s)" % REF[0], g, call, line); nv += 1
+    for r in rejected:
+        g = bykey[r["group"]]
+        if (g["key"], r["call"]) not in home_ok and (g["key"], r["call"]) in ref_ok:
+            rep("compile-rejected-under-this-isa (accepted under %s)" % REF[0], g, r["call"], r["why"]); nv += 1
+    for e in crashed:
+        g = bykey[e["group"]]
+        if (g["key"], e["calls"][0]) not in home_ok and (g["key"], e["calls"][0]) in ref_ok:
+            rep("crash-under-this-isa (ok under %s)" % REF[0], g, e["calls"][0], e["what"]); nv += 1
     for r in rejected:
         g = bykey[r["group"]]
         if (g["key"], r["call"]) in home_ok:
